@@ -184,6 +184,16 @@ Kw(n) = `note('Kw', _pos)` >> `n`
 '''
 
 
+# a reference written with an empty argument list is the same rule (one memo entry), also for classes and for rules
+# defined with an empty parameter list; a synonym rule does not hide the rule behind it
+EMPTY_ARGS = PRELUDE + '''start = (X() << "b") | (X << "c") | [Foo(), "b"] | [Foo, "c"] | (Y << "d") | (Y() << "e") | [Syn, "!"] | [X, "?"]
+X = `note('X', _pos)` >> "a"
+Y() = `note('Y', _pos)` >> "a"
+Syn = X
+class Foo { x: `note('Foo', _pos)` >> "a" }
+'''
+
+
 def part2(tier):
     bad = []
     evals = 0
@@ -238,9 +248,9 @@ def part2(tier):
             if len(log) != len(set(log)):
                 bad.append({'key': f'identity-count|{text}', 'kind': 'spec', 'grammar': IDENTITY, 'input': text,
                             'what': f'a rule body ran twice at one position on {text!r}: {log}'})
-    for gtext in (TEMPLATE_ARGS, 'grammar c07targs\n' + TEMPLATE_ARGS):
+    for gtext in (TEMPLATE_ARGS, 'grammar c07targs\n' + TEMPLATE_ARGS, EMPTY_ARGS, 'grammar c07eargs\n' + EMPTY_ARGS):
         module, _ = realrun.compile_grammar(gtext)
-        for text in ['abcc?', 'abcc!', 'ab', 'cc', '', 'abc']:
+        for text in ['abcc?', 'abcc!', 'ab', 'cc', '', 'abc', 'ac', 'ae', 'a?', 'a!', 'a']:
             del module.LOG[:]
             try:
                 module.parse(text)
